@@ -200,8 +200,13 @@ def unambiguous_full (cfg : Config) : Prop :=
   ∀ s ∈ cfg.syntaxes, s.isInstr = true → ∀ ls ∈ expand cfg.syntaxes expandFuel s.elems, supported ls = true →
     ∀ vs, Fits cfg ls vs → (parses cfg.grammar (fuelOf cfg) "instruction" (typs cfg ls vs)).length ≤ 1
 
-/-- the x86_64 class `add reg64, rm64` (found by name so that the witness survives re-numbering) -/
-def addRR : SynDesc := (lookupName Gen.Asm_x86_64.config.syntaxes "add_ins#5").getD default
+/-- the x86_64 class `add reg64, rm64` (found by its shape so that the witness survives re-numbering) -/
+def addRR : SynDesc :=
+  (Gen.Asm_x86_64.config.syntaxes.find? fun s =>
+    s.isInstr && match s.elems with
+      | [.word "add", .ws _, .op _ (.reg c), .glyph ',', .ws _, .op _ (.cons _)] =>
+          c == regIdx Gen.Asm_x86_64.config "Register64"
+      | _ => false).getD default
 /-- its flattening with a register as `rm` -/
 def addRRLeaves : List Leaf :=
   [.word "add".toList, .ws " ".toList, .reg (regIdx Gen.Asm_x86_64.config "Register64"), .glyph ',', .ws " ".toList,
